@@ -414,17 +414,30 @@ def flag_table(facts, cf):
     return out, order
 
 
-def fields_mentioned(body):
-    """names of `self` fields read anywhere in the body (to tell "not computed" from "computed in a form the
-    extractor does not know")"""
+def fields_mentioned(body, facts=None, _seen=None):
+    """names of `self` fields read anywhere in the body or in the crate functions/closures it calls (to tell
+    "not computed" from "computed in a form the extractor does not know")"""
     out = set()
+    _seen = _seen if _seen is not None else set()
+    _seen.add(body.id)
+    if facts is not None:
+        for f_ in facts.callees(body):
+            cb_ = facts.bodies.get(f_.get("res_id") or f_.get("def_id"))
+            if cb_ is not None and cb_.id not in _seen:
+                if f_.get("closure"):
+                    # captured `self` fields appear as fields of the closure environment: take every SPEC field name
+                    for blk_ in cb_.blocks:
+                        for st_ in blk_["stmts"]:
+                            for x_ in walk(cb_.term_of_rvalue(st_["rv"])) if st_["k"] == "assign" else ():
+                                if x_[0] == "field" and len(x_) > 4 and x_[4] == SPEC and isinstance(x_[2], str):
+                                    out.add(x_[2])
+                out |= fields_mentioned(cb_, facts, _seen)
 
     def place(p):
-        if p["l"] == 1:
-            for e in p["p"]:
-                if isinstance(e, dict) and "f" in e and e.get("name"):
-                    out.add(e["name"])
-                    break
+        for e in p["p"]:
+            if isinstance(e, dict) and "f" in e and e.get("name") and (p["l"] == 1 or e.get("adt") == SPEC):
+                out.add(e["name"])
+                break
     for blk in body.blocks:
         for st in blk["stmts"]:
             if st["k"] != "assign":
@@ -452,6 +465,32 @@ def fields_mentioned(body):
             pl = t["d"].get("c") or t["d"].get("m")
             if pl:
                 place(pl)
+    return out
+
+
+def fields_assigned(body, facts, _seen=None):
+    """SPEC field names assigned (directly, through a `&mut spec.field`, or inside a struct literal) in the body or
+    the crate functions/closures it calls"""
+    out = set()
+    _seen = _seen if _seen is not None else set()
+    _seen.add(body.id)
+    for bi, si, st in body.stmts():
+        if st["k"] != "assign":
+            continue
+        for e in st["lhs"]["p"]:
+            if isinstance(e, dict) and e.get("adt") == SPEC and e.get("name"):
+                out.add(e["name"])
+        rv = st["rv"]
+        if rv["k"] == "agg" and rv.get("ak") == "adt" and (rv.get("def") or "").endswith("AssetSpec"):
+            out |= set(rv.get("field_names") or [])
+        if rv["k"] == "ref" and rv.get("place"):
+            for e in rv["place"]["p"]:
+                if isinstance(e, dict) and e.get("adt") == SPEC and e.get("name"):
+                    out.add(e["name"])
+    for f_ in facts.callees(body):
+        cb_ = facts.bodies.get(f_.get("res_id") or f_.get("def_id"))
+        if cb_ is not None and cb_.id not in _seen:
+            out |= fields_assigned(cb_, facts, _seen)
     return out
 
 
@@ -497,6 +536,9 @@ def run(facts, rep, ctx):
     R1 = rep.rule("R18.1", "four-table agreement: field order reader = writer; bit(reader) = bit(flag computation); predicate(flag computation) = predicate(writer); kinds; presence companions", floor=150)
     R2 = rep.rule("R18.2", "short/long form: 4 vs 8 flag bytes by bit 0; extended fields only in the long form; long form iff any of flag bytes 4..6 is non-zero", floor=5)
     R3 = rep.rule("R18.3", "container: u32 header flags, specs in order, 4-byte zero terminator; reader stops at the first malformed spec", floor=4)
+    R4 = rep.rule("R18.4", "archive adder under the spec writer (write_string): a present string, empty or not, is stored on every non-error path -- the presence bit computed from is_some() and the stored text cannot disagree", floor=1)
+    import annot
+    annot.contract(facts, rep, R4, ("write_string",))
     rd = facts.body(SPEC + "::from_stream")
     ap = facts.body(SPEC + "::append")
     if rd is None or ap is None or not rd.pub or not ap.pub:
@@ -520,20 +562,40 @@ def run(facts, rep, ctx):
     # ---- order ------------------------------------------------------------------------------------
     rseq = [r["field"] for r in rrows]
     wseq = [w["field"] for w in wrows]
-    n = max(len(rseq), len(wseq))
-    for i in range(n):
-        a = rseq[i] if i < len(rseq) else None
-        b = wseq[i] if i < len(wseq) else None
-        if a == b:
-            rep.ok(R1, {"position": i, "field": a})
-        else:
-            rep.violation(R1, ap.name, "order:%d" % i, "stream position %d: reader stores `%s`, writer emits `%s`" % (i, a, b), ww)
+    # the two extracted sequences are comparable position by position only when each is a duplicate-free listing
+    # of the same fields; otherwise one of the extractions is incomplete (table-driven / closure-driven code) and
+    # the only definite fact left is a field that one side never touches at all
+    comparable = len(set(rseq)) == len(rseq) and len(set(wseq)) == len(wseq) and set(rseq) == set(wseq)
+    if comparable:
+        for i in range(len(rseq)):
+            a, b = rseq[i], wseq[i]
+            if a == b:
+                rep.ok(R1, {"position": i, "field": a})
+            else:
+                rep.violation(R1, ap.name, "order:%d" % i, "stream position %d: reader stores `%s`, writer emits `%s`" % (i, a, b), ww)
+    else:
+        rmention = fields_assigned(rd, facts)
+        wmention = fields_mentioned(ap, facts)
+        for fld_ in sorted(set(rseq) ^ set(wseq)):
+            if fld_ in set(rseq) and fld_ not in wmention and ("use_" + fld_) not in wmention:
+                rep.violation(R1, ap.name, "order:never-written:" + fld_, "the reader stores `%s` from the stream, the writer never touches the field" % fld_, ww)
+            elif fld_ in set(wseq) and fld_ not in rmention:
+                rep.violation(R1, rd.name, "order:never-read:" + fld_, "the writer emits `%s`, the reader never assigns the field" % fld_, rw)
+        rep.inconc(R1, "reader/writer field sequences were not extracted completely (%d read rows, %d distinct; %d write rows, %d distinct): table- or closure-driven code" % (
+            len(rseq), len(set(rseq)), len(wseq), len(set(wseq))))
     # ---- per field ----------------------------------------------------------------------------------
     wby = {w["field"]: w for w in wrows}
     last_bit = -1
     for r in rrows:
         f = r["field"]
         w = wby.get(f)
+        if w is None and not comparable:
+            continue
+        if w is not None and wseq.count(f) != 1:
+            # the writer rows come from table-driven code the extractor attributes wrongly: nothing about them is a fact
+            w = None
+            rep.inconc(R1, "`%s`: the writer's row is ambiguous (%d candidates)" % (f, wseq.count(f)))
+            continue
         if r.get("unknown"):
             rep.inconc(R1, "`%s` is read under a condition that is not recognised: %s" % (f, r["unknown"][0]))
             continue
@@ -545,7 +607,7 @@ def run(facts, rep, ctx):
             continue
         ft = ftab.get(f) or ftab.get("use_" + f)
         if ft is None:
-            if {f, "use_" + f} & fields_mentioned(cf):
+            if {f, "use_" + f} & fields_mentioned(cf, facts):
                 rep.inconc(R1, "the flag of `%s` is computed in a form that is not recognised (reader tests bit %s)" % (f, r["bit"]))
             else:
                 rep.violation(R1, cf.name, "flag-missing:" + f, "no flag bit is computed for `%s` (reader tests bit %s): compute_flags never reads the field" % (f, r["bit"]), "%s:%s" % (cf.file, cf.line))
@@ -588,7 +650,11 @@ def run(facts, rep, ctx):
         if w and isinstance(r["bit"], int) and (r["bit"] >= 32) != w["long"]:
             rep.violation(R2, ap.name, "long-write:" + f, "`%s` (bit %s) is written %s the long-form guard" % (f, r["bit"], "under" if w["long"] else "outside"), ww)
     extra = [k for k in ftab if not k.startswith("#") and k not in rseq and k.replace("use_", "", 1) not in rseq]
+    rassigned = fields_assigned(rd, facts) if extra else set()
     for k in extra:
+        if k in rassigned or k.replace("use_", "", 1) in rassigned:
+            rep.inconc(R1, "a flag bit is computed for `%s`; the reader assigns the field in a form that is not recognised" % k)
+            continue
         rep.violation(R1, cf.name, "flag-extra:" + k, "a flag bit is computed for `%s`, which the reader never consumes" % k, "%s:%s" % (cf.file, cf.line))
     form_rules(facts, rep, R2, rd, cf, ap, ftab, rrows)
     container_rules(facts, rep, R3)
